@@ -45,9 +45,73 @@ JudgeAvg(e) ==
   ELSE IF e.px # m.nx \/ e.py # m.ny \/ e.pz # m.nz THEN "not-the-weighted-mean"
   ELSE "ok"
 
+
+(* mapx : a recorded DoMapping run in the generic form of Mapping.tla (modification mappings, shipped mappings):
+          [kind, M, mps, applied : Seq([m, kind, atoms]) (interposed apply_block_mapping / apply_mod_mapping),
+           parts : Seq([key, resid, oldresids, atomname, atype, mods : Seq(mapping number), cons]), edges, inters,
+           warn_unmapped, unmapped_named, warn_overlap, warn_modoverlap : BOOLEAN, n_nomodmap : Int]
+   Every clause is evaluated; the verdict is "ok" or the names of all clauses that fail, joined by ";".              *)
+RECURSIVE JoinFails(_, _)
+JoinFails(s, i) == IF i > Len(s) THEN ""
+                   ELSE LET rest == JoinFails(s, i + 1) IN
+                        IF s[i][2] THEN (IF rest = "" THEN s[i][1] ELSE s[i][1] \o ";" \o rest) ELSE rest
+
+JudgeMapX(e) ==
+  LET C == GCtx(e.M) IN
+  IF ~GOrderDetermined(C, e.mps) THEN "unjudged:two-placements-share-their-sort-key"
+  ELSE
+  LET order == GOrder(C, e.mps)
+      X == GExpected(e.M, e.mps, order)
+      resOf(a) == C.node[a].resid
+      lenA == Len(e.applied) = Len(order)
+      lenP == Len(e.parts) = Len(X.parts)
+      P == DOMAIN X.parts
+      consRes(i) == {resOf(X.parts[i].cons[c][1]) : c \in DOMAIN X.parts[i].cons}
+      \* residue numbers (as they should be) of the particles made by blocks from the input residues particle i is made of
+      home(i) == {X.parts[j].resid : j \in {k \in P : ~X.parts[k].added /\ consRes(k) \cap consRes(i) # {}}}
+      unm == GUnmappedHeavy(C, order)
+      nomap == Cardinality(GNoMapping(C, e.mps))
+      fails == JoinFails(<<
+        <<"number-of-placements-differs", ~lenA>>,
+        <<"placements-or-their-order-differ", lenA /\ \E i \in DOMAIN order :
+             e.applied[i].m # order[i].m \/ e.applied[i].kind # order[i].kind \/ SeqSet(e.applied[i].atoms) # RangeOf(order[i].f)>>,
+        <<"not-one-copy-of-the-target-per-placement", ~lenP>>,
+        <<"particles-not-in-input-order", lenP /\ \E i \in P : e.parts[i].key # X.parts[i].key \/ e.parts[i].atomname # X.parts[i].atomname>>,
+        <<"particle-not-changed-as-the-modification-says", lenP /\ \E i \in P : e.parts[i].atype # X.parts[i].atype \/ e.parts[i].mods # X.parts[i].mods>>,
+        <<"residues-not-renumbered-consecutively", lenP /\ \E i \in P : ~X.parts[i].added /\ e.parts[i].resid # X.parts[i].resid>>,
+        <<"new-particle-not-in-the-residue-it-modifies", lenP /\ \E i \in P : X.parts[i].added /\ home(i) # {} /\ e.parts[i].resid \notin home(i)>>,
+        <<"input-residue-number-not-retained", lenP /\ \E i \in P : ~(Len(e.parts[i].oldresids) = 1 /\ e.parts[i].oldresids[1] \in consRes(i))>>,
+        <<"constituents-or-weights-differ", lenP /\ \E i \in P : ConsSet(e.parts[i].cons) # ConsSet(X.parts[i].cons) \/ Len(e.parts[i].cons) # Len(X.parts[i].cons)>>,
+        <<"bond-missing", \E x \in X.edges : x \notin SeqSet(e.edges)>>,
+        <<"unjustified-bond", \E x \in SeqSet(e.edges) : x \notin X.edges>>,
+        <<"interactions-differ", SeqSet(e.inters) # SeqSet(X.inters) \/ Len(e.inters) # Len(X.inters)>>,
+        <<"spurious-unmapped-atom-warning", e.warn_unmapped /\ unm = {}>>,
+        <<"heavy-atom-vanished-silently", ~e.warn_unmapped /\ unm # {}>>,
+        <<"unmapped-atom-warning-lists-wrong-atoms", e.warn_unmapped /\ unm # {} /\ SeqSet(e.unmapped_named) # unm>>,
+        <<"spurious-overlap-warning", e.warn_overlap /\ ~GBlockOverlap(order)>>,
+        <<"overlap-not-reported", ~e.warn_overlap /\ GBlockOverlap(order)>>,
+        <<"spurious-modification-overlap-warning", e.warn_modoverlap /\ ~GModOverlap(C, e.mps)>>,
+        <<"modification-overlap-not-reported", ~e.warn_modoverlap /\ GModOverlap(C, e.mps)>>,
+        <<"modification-without-mapping-not-reported", e.n_nomodmap < nomap>>,
+        <<"spurious-no-modification-mapping-warning", e.n_nomodmap > nomap>> >>, 1)
+  IN IF X.amb THEN "unjudged:several-particles-qualify-for-re-use"
+     ELSE IF X.err THEN (IF e.raised THEN "unjudged:re-used-particle-does-not-exist" ELSE "no-error-although-the-re-used-particle-does-not-exist")
+     ELSE IF fails = "" THEN "ok" ELSE fails
+
+(* cover : [kind, mps (only type and names used), names : Seq(STRING), found : BOOLEAN, sel : Seq(mapping number)]
+           one call of the real cover() on the names of a group and the sorted option list                           *)
+JudgeCover(e) ==
+  LET r == GCover(e.mps, GOptions(e.mps), SeqSet(e.names), 1) IN
+  IF r.ok # e.found THEN (IF r.ok THEN "cover-not-found" ELSE "cover-invented")
+  ELSE IF r.ok /\ SeqSet(e.sel) # r.sel THEN "not-the-first-cover"
+  ELSE "ok"
+
 Init == tid \in 1..Len(Batch) /\ verdict = "pending"
 Eval == /\ verdict = "pending"
-        /\ verdict' = IF Batch[tid].kind = "map" THEN JudgeMap(Batch[tid]) ELSE JudgeAvg(Batch[tid])
+        /\ verdict' = IF Batch[tid].kind = "map" THEN JudgeMap(Batch[tid])
+                       ELSE IF Batch[tid].kind = "mapx" THEN JudgeMapX(Batch[tid])
+                       ELSE IF Batch[tid].kind = "cover" THEN JudgeCover(Batch[tid])
+                       ELSE JudgeAvg(Batch[tid])
         /\ UNCHANGED tid
 Spec == Init /\ [][Eval]_vars
 =============================================================================
